@@ -140,7 +140,8 @@ func runC10(w *mc.Worker) {
 	}
 	stages := []stage{{name, bounds, maxDecl, maxLen, 1}}
 	if w.Tier == "quick" {
-		stages = append(stages, stage{"d1-L2", "<= 1 declaration, 2 statements out of 37; same inputs", 1, 2, 2})
+		stages = append(stages, stage{"d1-L2", "<= 1 declaration, 2 statements out of 37; same inputs", 1, 2, 2},
+			stage{"d2-L2", "2 declarations, 2 statements out of 37; same inputs", 2, 2, 2})
 	} else {
 		a = append(a, H)
 		stages = []stage{
